@@ -296,6 +296,41 @@ def oracle(prop, run):
         for t_, evs in starts.items():
             if tasks.get(t_, {}).get("state") == "CANCELLED":
                 yield ("C07 cancelled-task-was-started", {"task": t_})
+    if prop == "C19" and obs["err"] in (None, "Watchdog"):
+        # closed-loop release: never more than `concurrency` task graphs of the job in flight, never more than
+        # `invocations` in total; a follow-up is released only after an earlier graph has finished or was cancelled
+        fin_at = {r[2]: int(r[0]) for r in rows if r[1] == "TASK_GRAPH_FINISHED"}
+        cancel_at = {}
+        for r in rows:
+            if len(r) > 5 and r[1] == "TASK_CANCEL":
+                cancel_at.setdefault(r[5], int(r[0]))   # first cancellation seen in the graph
+        for gdesc in world["workload"]["graphs"]:
+            if gdesc["release_policy"] != "closed_loop":
+                continue
+            conc, inv = gdesc["concurrency"], gdesc["invocations"]
+            mine = []
+            for g in obs["graphs"]:
+                if g["name"].split("@")[0] != gdesc["name"]:
+                    continue
+                rel = [t["release"] for t in tasks.values() if t["graph"] == g["name"] and t["release"] is not None and t["release"] >= 0 and t["state"] != "VIRTUAL"]
+                first_mon = [e["time"] for e in mon if e["ev"] == "release" and tasks.get(e["t"], {}).get("graph") == g["name"] and e["time"] is not None]
+                if not rel and not first_mon:
+                    continue
+                start = min(first_mon) if first_mon else min(rel)
+                if g["complete"] and g["name"] in fin_at:
+                    end = fin_at[g["name"]]
+                elif g["cancelled"] and g["name"] in cancel_at:
+                    end = cancel_at[g["name"]]   # earliest possible end: generous to the implementation
+                else:
+                    end = None
+                mine.append((start, end, g["name"]))
+            if len(mine) > inv:
+                yield ("C19 closed-loop-released-more-task-graphs-than-invocations", {"job": gdesc["name"], "released": len(mine), "invocations": inv})
+            for s0, _e0, nm in mine:
+                inflight = [n2 for s2, e2, n2 in mine if s2 <= s0 and (e2 is None or e2 >= s0)]
+                if len(inflight) > conc:
+                    yield ("C19 closed-loop-more-task-graphs-in-flight-than-concurrency", {"job": gdesc["name"], "at": s0, "in_flight": inflight, "concurrency": conc})
+                    break
     if prop == "C16":
         last = None
         for e in mon:
